@@ -40,7 +40,7 @@ def check_file(res, f, where=''):
     parser = KdBufParser(tp, pn)
     items = []
     try:
-        for x in parser.parse(io.BytesIO(f['data'])):
+        for x in parser.parse(wire.stream(f['data'])):
             items.append(x)
     except Exception as e:
         res.violation(f'c03-raises-{core.exc_name(e)}', f'parsing a well-formed v3 file raised {e!r} at '
@@ -147,13 +147,55 @@ def deferred_consumption(res, rng):
         res.violation(f'c03-raises-{core.exc_name(e)}', f'deferred consumption of two parses: {e!r}', {'file': fa['data']})
 
 
+def straddle_workload(res, ctx, rng):
+    """Scale / alignment ladder for the marker scans: the stackshot, the filler before the thread map and the filler
+    before an events chunk are long, and their length places the marker that ends them across a power-of-two block edge
+    (every split of the marker's bytes), counted from the start of the scan and from the start of the file."""
+    recs = gen.gen_records(rng, 6, first_nonzero=False)
+    entries = [(11, 100, b'proc0', b''), (12, 200, b'proc1', b'junk')]
+    blocks_sizes = ctx.pick((4096, 8192), (4096, 8192, 65536))
+    probe = wire.V3Spec(entries=entries, chunks=[recs[:3], recs[3:]], header_kw={'numer': 125, 'denom': 3, 'timestamp': 77,
+                        'wall_secs': 1600000000, 'wall_usecs': 5, 'tz_minuteswest': 60, 'tz_dst': 0, 'flags': 1}).build()
+    base_off = probe.find(wire.STACKSHOT_END)          # where the stackshot scan starts (header end)
+    n = 0
+    for which, marker in (('stackshot', wire.STACKSHOT_END), ('threadmap', wire.TAG_THREADMAP), ('events', wire.TAG_EVENTS)):
+        for B in blocks_sizes:
+            for k in range(1, len(marker)):
+                for origin in ('scan', 'file'):
+                    n += 1
+                    if not ctx.mine(n):
+                        continue
+                    # the marker starts k bytes before a block edge
+                    L = B - k - (base_off if origin == 'file' and which == 'stackshot' else 0)
+                    filler = wire.sanitize_filler(bytes(rng.randrange(1, 255) for _ in range(L % (2 * B) + (B if L < 0 else 0))),
+                                                  wire.STACKSHOT_END, wire.TAG_THREADMAP, wire.TAG_EVENTS)
+                    kw = {'entries': entries, 'chunks': [recs[:3], recs[3:]],
+                          'header_kw': {'numer': 125, 'denom': 3, 'timestamp': 77, 'wall_secs': 1600000000, 'wall_usecs': 5,
+                                        'tz_minuteswest': 60, 'tz_dst': 0, 'flags': 1}}
+                    if which == 'stackshot':
+                        kw['pre_stackshot'] = filler
+                    elif which == 'threadmap':
+                        kw['pre_threadmap'] = filler
+                    else:
+                        kw['chunk_fillers'] = [b'', filler] if k % 2 else [filler, b'']
+                    spec = wire.V3Spec(**kw)
+                    try:
+                        data = spec.build()
+                    except AssertionError:
+                        continue
+                    f = {'kind': 'v3', 'entries': entries, 'records': recs, 'spec': spec, 'data': data, 'model': None}
+                    check_file(res, f, where=f'({which} marker {k} bytes before a {B}-byte block edge counted from the {origin})')
+                    res.case(data)
+                    res.count('marker_straddle_files')
+
+
 def partition_check(res, f):
     """kevents / os_log_events partition the stream."""
     from pykdebugparser.pykdebugparser import PyKdebugParser
     from pykdebugparser.os_log_event import OsLogEvent
     try:
-        ke = list(PyKdebugParser().kevents(io.BytesIO(f['data'])))
-        lo = list(PyKdebugParser().os_log_events(io.BytesIO(f['data'])))
+        ke = list(PyKdebugParser().kevents(wire.stream(f['data'])))
+        lo = list(PyKdebugParser().os_log_events(wire.stream(f['data'])))
     except Exception as e:
         res.violation(f'c03-front-raises-{core.exc_name(e)}', f'{e!r}', case_of(f))
         return
@@ -186,6 +228,7 @@ def run(ctx):
             check_file(res, f, where='(large dump)')
             res.case(f['data'])
             res.count('large_files')
+        straddle_workload(res, ctx, rng)
         # chunking metamorphism: one event sequence under every split into up to 3 chunks
         for _ in range(ctx.pick(6, 60)):
             recs = gen.gen_records(rng, rng.randrange(0, 7), first_nonzero=False)
@@ -224,6 +267,7 @@ def run(ctx):
     res.require('files_with_empty_chunk', 1)
     res.require('contract_evaluations', 1)
     res.require('deferred_parses_checked', 4)
+    res.require('marker_straddle_files', 20)
     return res
 
 
